@@ -474,7 +474,7 @@ impl Player {
             res,
             snap,
             events,
-            steps: self.story.verif_counters().steps - steps_before,
+            steps: self.story.verif_counters().steps.saturating_sub(steps_before),
         };
         if rec.is_fuel() {
             self.fuel_hit = true;
